@@ -16,8 +16,8 @@ Section Generic.
     forall n, In n nalus -> first_is_video isvideo n = true -> exists h, hdr n = Ok h /\ h <= lenN n.
 
   Lemma cbcs_shape_hdr nalus :
-    wf_nalus nalus = true -> lenN (frames nalus) < 4294967296 -> headers_parse nalus ->
-    exists r, protect_ranges isvideo hdr Cbcs (frames nalus) = Ok r /\
+    wf_nalus_cbcs nalus = true -> lenN (frames nalus) < 4294967296 -> headers_parse nalus ->
+    exists r, protect_ranges_r isvideo hdr Cbcs (frames nalus) = Ok r /\
               expand r = spec_mask isvideo (fun n => lenN n - hs_of hdr n) nalus /\
               sumN (map (fun p => ss_clear p + ss_prot p) r) = lenN (frames nalus) /\
               Forall (fun p => ss_clear p < 65536) r.
@@ -31,8 +31,8 @@ Section Generic.
   Lemma cbcs_sample_hdr (E D : list N -> list N -> list N) key iv cb sb nalus :
     (forall k b, length (E k b) = 16%nat) -> (forall k b, length (D k b) = 16%nat) ->
     key_ok key = true -> length iv = 16%nat ->
-    wf_nalus nalus = true -> lenN (frames nalus) < 4294967296 -> headers_parse nalus ->
-    exists r, protect_ranges isvideo hdr Cbcs (frames nalus) = Ok r /\
+    wf_nalus_cbcs nalus = true -> lenN (frames nalus) < 4294967296 -> headers_parse nalus ->
+    exists r, protect_ranges_r isvideo hdr Cbcs (frames nalus) = Ok r /\
               expand r = spec_mask isvideo (fun n => lenN n - hs_of hdr n) nalus /\
               crypt_sample_cbcs E D false key iv r cb sb (frames nalus)
               = Ok (ref_cbcs E D false key iv r cb sb (frames nalus)).
@@ -63,7 +63,7 @@ Definition hevc_headers_parse spsmap ppsmap (nalus : list (list N)) : Prop :=
 Lemma cbcs_shape_avc (E D : list N -> list N -> list N) spsmap ppsmap key iv nalus :
   (forall k b, length (E k b) = 16%nat) -> (forall k b, length (D k b) = 16%nat) ->
   key_ok key = true -> length iv = 16%nat ->
-  wf_nalus nalus = true -> lenN (frames nalus) < 4294967296 ->
+  wf_nalus_cbcs nalus = true -> lenN (frames nalus) < 4294967296 ->
   avc_headers_parse spsmap ppsmap nalus ->
   exists r, avc_protect_ranges spsmap ppsmap Cbcs (frames nalus) = Ok r /\
             expand r = spec_mask avc_is_video (fun n => lenN n - hs_of (avc_hdr spsmap ppsmap) n) nalus /\
@@ -84,7 +84,7 @@ Qed.
 Lemma cbcs_shape_hevc (E D : list N -> list N -> list N) spsmap ppsmap key iv nalus :
   (forall k b, length (E k b) = 16%nat) -> (forall k b, length (D k b) = 16%nat) ->
   key_ok key = true -> length iv = 16%nat ->
-  wf_nalus nalus = true -> lenN (frames nalus) < 4294967296 ->
+  wf_nalus_cbcs nalus = true -> lenN (frames nalus) < 4294967296 ->
   hevc_headers_parse spsmap ppsmap nalus ->
   exists r, hevc_protect_ranges spsmap ppsmap Cbcs (frames nalus) = Ok r /\
             expand r = spec_mask hevc_is_video (fun n => lenN n - hs_of (hevc_hdr spsmap ppsmap) n) nalus /\
